@@ -360,6 +360,15 @@ inductive Observed (F : Type)
   | libraryError        -- UpnpXmlContentError / UpnpXmlParseError (the library's error type)
   | otherError
 
+/-- what a result of `async_create_device` looks like to the judge: the flattened graph, or whether
+    the exception is one of the library's XML errors -/
+def observedOf (r : Except FErr (List (DevRow F))) : Observed F :=
+  match r with
+  | .ok rows => .created rows
+  | .error .xmlContent => .libraryError
+  | .error .xmlParse => .libraryError
+  | .error _ => .otherError
+
 /-- the property: a well-formed description yields exactly `mirror` (`norm` forgets what is not
     observable: `allowed_values` is a Python set, so its order and multiplicity); when `mirror` refuses (strict
     mode, bad service document) the library's error type is raised -/
